@@ -18,10 +18,11 @@ EXTENDS Restart
 \* The generator's own clock: the first fault comes at a depth drawn at the start, the following ones
 \* after a drawn gap, so that the simulated behaviours reach the late phases of an environment's life.
 CONSTANTS FaultStarts, FaultGaps
-VARIABLES tick, fstart
-gvars == <<vars, tick, fstart>>
-Tk == tick' = tick + 1 /\ fstart' = fstart
-TkF == tick' = tick + 1 /\ fstart' \in {tick + g : g \in FaultGaps}
+VARIABLES tick, fstart, whole   \* whole: no update of the last RECONCILE answer has been delivered yet
+gvars == <<vars, tick, fstart, whole>>
+Tk == tick' = tick + 1 /\ fstart' = fstart /\ whole' = whole
+TkW(b) == tick' = tick + 1 /\ fstart' = fstart /\ whole' = b
+TkF == tick' = tick + 1 /\ fstart' \in {tick + g : g \in FaultGaps} /\ whole' = whole
 
 Quiet == up /\ conn = "up" /\ rq = {} /\ rcv = {}
 NoneTransient == \A e \in Envs : env[e] \notin Transient
@@ -43,8 +44,8 @@ G_Subscribe == Subscribe /\ Tk
 G_Resubscribe == Resubscribe /\ Tk
 G_Subscribed(id) == Subscribed(id) /\ Tk
 G_StoreFid == StoreFid /\ Tk
-G_Reconcile == Reconcile /\ Tk
-G_ReconcileUpdate(t) == ReconcileUpdate(t) /\ Tk
+G_Reconcile == Reconcile /\ TkW(TRUE)
+G_ReconcileUpdate(t) == ReconcileUpdate(t) /\ TkW(FALSE)
 G_KillOnReconcile(t) == KillOnReconcile(t) /\ Tk
 G_RefreshOnReconcile(t) == RefreshOnReconcile(t) /\ Tk
 
@@ -71,7 +72,7 @@ G_Crash ==
   /\ tick >= fstart /\ up /\ conn = "up" /\ rq = {} /\ FaultEnvOK("crash") /\ (rcv = {} \/ NoneTransient) /\ Something
   /\ Crash /\ TkF
 \* drop: recovery settled, or while the whole answer to a RECONCILE call is still on its way (it is lost)
-AnswerPending == rq # {} /\ rq = {t \in Tasks : Alive(t) /\ mt[t].fw = cfid} /\ NoneTransient
+AnswerPending == rq # {} /\ whole /\ NoneTransient
 G_DropConnection ==
   /\ tick >= fstart /\ up /\ conn = "up" /\ rcv = {} /\ (rq = {} \/ AnswerPending) /\ FaultEnvOK("drop") /\ Something
   /\ DropConnection /\ TkF
@@ -84,7 +85,7 @@ GenNext ==
                      \/ G_Release(e) \/ G_RosterRemove(e) \/ G_KillSend(e) \/ G_EnvError(e)
   \/ G_Crash \/ G_DropConnection
 
-GenInit == Init /\ tick = 0 /\ fstart \in FaultStarts
+GenInit == Init /\ tick = 0 /\ fstart \in FaultStarts /\ whole = FALSE
 GenSpec == GenInit /\ [][GenNext]_gvars
 TickBound == tick < 48
 =============================================================================
